@@ -499,7 +499,7 @@ def changed_anchor_files(pid):
 
 
 # ---- source tie: the word-level helpers are translated from the Rust text on every run
-GENTIE_FILES = ["src/lib.rs", "src/bytes.rs", "src/algorithms/mod.rs", "src/algorithms/ops.rs",
+GENTIE_FILES = ["src/lib.rs", "src/add.rs", "src/bytes.rs", "src/algorithms/mod.rs", "src/algorithms/ops.rs",
                 "src/algorithms/mul.rs", "src/algorithms/mul_redc.rs",
                 "src/algorithms/div/reciprocal.rs", "src/algorithms/div/small.rs"]
 
@@ -531,8 +531,13 @@ def gen_tie(timeout=900):
     if old != text:
         os.makedirs(os.path.dirname(out), exist_ok=True)
         open(out, "w").write(text)
+    vo = os.path.join(COQ, "Properties", "GenTie.vo")
+    if os.path.exists(vo):
+        os.remove(vo)                              # always re-checked, so that its output is read
     ok, log = coq_build(["Properties/GenTie.vo"], timeout)
-    closed = "Closed under the global context" in log or (ok and "Axioms:" not in log)
+    src = re.sub(r"\(\*.*?\*\)", " ", open(os.path.join(COQ, "Properties", "GenTie.v")).read(), flags=re.S)
+    npa = len(re.findall(r"Print Assumptions", src))
+    closed = ok and log.count("Closed under the global context") == npa and "Axioms:" not in log
     res = {"status": "proved" if (ok and closed) else "broken", "functions": status,
            "regenerated": old != text, "log": "" if ok else log[-1200:]}
     return res
